@@ -41,7 +41,7 @@ OUTSIDE = ['pairs of faults (thorough tier of C04 covers pairs for transparency)
 def _can_fire(fault, op):
     kind = sc.KINDS[op // 2]
     if fault == 'key_arg':
-        return kind in ('A', 'B', 'S', 'R', 'C', 'D', 'H')
+        return kind in ('A', 'B', 'S', 'R', 'C', 'D', 'H', 'M')
     if fault == 'key_resolver':
         return kind == 'R'
     if fault == 'in_handler':
